@@ -479,8 +479,7 @@ func (e *kvElection) attemptPriorityTakeover(payloadBytes []byte) error {
 	}
 
 	if e.cfg.Priority <= currentPayload.Priority {
-		e.leaderID.Store(currentPayload.ID)
-		e.revision.Store(entry.Revision())
+		e.observeLeader(currentPayload.ID, entry.Revision())
 		return fmt.Errorf("current leader has equal or higher priority: %d >= %d", currentPayload.Priority, e.cfg.Priority)
 	}
 
@@ -509,12 +508,25 @@ func (e *kvElection) attemptPriorityTakeover(payloadBytes []byte) error {
 		return fmt.Errorf("failed to unmarshal payload after takeover: %w", err)
 	}
 
-	e.revision.Store(newRev)
-	e.token.Store(newPayloadStruct.Token)
 	if !e.becomeLeader(newPayloadStruct.Token, newRev) {
 		return ErrAlreadyStopped
 	}
 	return nil
+}
+
+// observeLeader records the id and revision of a record this instance saw as a
+// follower. It takes the mutex and does nothing while the instance is leader: a
+// leader's LeaderID and Revision are those of its own writes, and the revision it
+// presents on its next heartbeat must never be one it merely observed.
+func (e *kvElection) observeLeader(id string, rev uint64) {
+	e.mu.Lock()
+	defer e.mu.Unlock()
+
+	if e.isLeader.Load() {
+		return
+	}
+	e.leaderID.Store(id)
+	e.revision.Store(rev)
 }
 
 // becomeFollower gives up the leadership claim, if any, and continues as a
